@@ -136,12 +136,11 @@ class C11(object):
                                     s.RunEquationReduction = False
                                 s.ParseString(text)
                             s.SolveEquation()
-                    except NameError:
-                        outcome = 'NameError'
                     except Exception as e:
+                        # "rejected with an error": the repository raises NameError; any exception is a rejection
                         outcome = type(e).__name__
                     n_series = len(s.TimeSeries) if s is not None else 0
-                    if outcome == 'NameError' and n_series == 0:
+                    if outcome != 'returned' and n_series == 0:
                         rec.count('names.rejected')
                     else:
                         rec.violate('reserved_name_not_rejected', {'name': nm, 'outcome': outcome, 'configured': how,
@@ -376,12 +375,10 @@ class C11(object):
                         bus2.AddVariable('SUP_CA_GOOD', 'exports', '')
                 stage = 'main'
                 mod.main()
-        except (LogicError, ValueError) as e:
-            outcome = type(e).__name__
         except Exception as e:
-            outcome = 'OTHER:' + type(e).__name__ + ':' + str(e)[:100]
+            outcome = type(e).__name__          # LogicError / ValueError today; any exception is a rejection
         n_series = len(mod.EquationSolver.TimeSeries)
-        if outcome in ('LogicError', 'ValueError') and n_series == 0:
+        if outcome != 'returned' and n_series == 0:
             rec.count('decl.rejected')
         else:
             rec.violate('ill_formed_declaration_not_rejected', {'which': which, 'outcome': outcome, 'stage': stage,
